@@ -197,7 +197,19 @@ def py_to_ir(stmts, src=None):
             out.append(S("raise", st.exc, src=st))
         elif isinstance(st, pyast.Assert):
             out.append(S("if", st.test, Seq([]), Seq([S("raise", None, src=st)]), src=st))
-        elif isinstance(st, (pyast.Try, pyast.With, pyast.Match)) or (hasattr(pyast, "TryStar") and
+        elif isinstance(st, pyast.With):
+            # with E as v: body   ==   v = E ; body   (the managers used on files and locks do not swallow exceptions)
+            for it in st.items:
+                if it.optional_vars is not None:
+                    a = pyast.Assign(targets=[it.optional_vars], value=it.context_expr, type_comment=None)
+                else:
+                    a = pyast.Expr(value=it.context_expr)
+                pyast.copy_location(a, st)
+                a._file = getattr(st, "_file", None)
+                a._parent = st
+                out.append(S("atom", a, src=a))
+            out.append(py_to_ir(st.body, src=st))
+        elif isinstance(st, (pyast.Try, pyast.Match)) or (hasattr(pyast, "TryStar") and
                                                                         isinstance(st, pyast.TryStar)):
             raise AnalysisError("%s: idiom not modelled (line %d)" % (type(st).__name__, st.lineno))
         elif isinstance(st, (pyast.FunctionDef, pyast.ClassDef)):
